@@ -1,34 +1,36 @@
 #!/usr/bin/env python3
-"""For every 'fixed' entry of known_findings.json: reverse-apply the fix commit
-to /repo's working tree, run the recorded replay (must report a VIOLATION),
-restore the tree, and run it again (must pass).  Development aid."""
-import json, subprocess, sys
+"""For every 'fixed' entry of known_findings.json: make a scratch worktree of /repo HEAD, reverse-apply the fix commit
+there, run the recorded replay against it (VERIF_REPO; must report a VIOLATION), and run it against /repo itself (must
+pass).  /repo is never touched.  Development aid.   usage: fixed_replays_fail_on_old_code.py [PROP ...]"""
+import json, os, subprocess, sys
 d = json.load(open('/verif/known_findings.json'))
 only = sys.argv[1:]
 ok = True
+WT = '/tmp/fixwt'
 for f in d['findings']:
     if f.get('status') != 'fixed' or not f.get('replay'):
         continue
     if only and f['property'] not in only:
         continue
     commit, pid, replay = f['commit'], f['property'], f['replay']
+    subprocess.run(['git', '-C', '/repo', 'worktree', 'remove', '--force', WT], stdout=subprocess.DEVNULL, stderr=subprocess.DEVNULL)
+    subprocess.check_call(['git', '-C', '/repo', 'worktree', 'add', '-q', '--detach', WT, 'HEAD'])
     patch = subprocess.run(['git', '-C', '/repo', 'diff', commit + '^', commit], stdout=subprocess.PIPE).stdout
-    r = subprocess.run(['git', '-C', '/repo', 'apply', '-R', '--3way'], input=patch, stdout=subprocess.PIPE, stderr=subprocess.STDOUT)
+    r = subprocess.run(['git', '-C', WT, 'apply', '-R', '--3way'], input=patch, stdout=subprocess.PIPE, stderr=subprocess.STDOUT)
     if r.returncode != 0:
-        r = subprocess.run(['git', '-C', '/repo', 'apply', '-R'], input=patch, stdout=subprocess.PIPE, stderr=subprocess.STDOUT)
+        r = subprocess.run(['git', '-C', WT, 'apply', '-R'], input=patch, stdout=subprocess.PIPE, stderr=subprocess.STDOUT)
     if r.returncode != 0:
         print("CANNOT-REVERT", pid, commit, r.stdout.decode()[-200:]); ok = False
-        subprocess.run(['git', '-C', '/repo', 'checkout', '--', '.']); subprocess.run(['git', '-C', '/repo', 'reset', '-q'])
         continue
-    try:
-        a = subprocess.run(['./check', pid, '--replay', replay], cwd='/verif', stdout=subprocess.PIPE, stderr=subprocess.STDOUT)
-    finally:
-        subprocess.run(['git', '-C', '/repo', 'reset', '-q']); subprocess.run(['git', '-C', '/repo', 'checkout', '--', '.'])
-    b = subprocess.run(['./check', pid, '--replay', replay], cwd='/verif', stdout=subprocess.PIPE, stderr=subprocess.STDOUT)
+    env = dict(os.environ, VERIF_REPO=WT)
+    a = subprocess.run(['./check', pid, '--replay', replay, '--no-evidence'], cwd='/verif', env=env, stdout=subprocess.PIPE, stderr=subprocess.STDOUT)
+    b = subprocess.run(['./check', pid, '--replay', replay, '--no-evidence'], cwd='/verif', stdout=subprocess.PIPE, stderr=subprocess.STDOUT)
     verdict = "OK" if (a.returncode == 1 and b'VIOLATION' in a.stdout and b.returncode == 0) else "BAD"
     if verdict == "BAD":
         ok = False
-    print(verdict, pid, commit, replay, "old:", a.returncode, "new:", b.returncode)
+    print(verdict, pid, commit, replay, "old:", a.returncode, "new:", b.returncode, flush=True)
     if verdict == "BAD":
         print(a.stdout.decode()[-500:])
+subprocess.run(['git', '-C', '/repo', 'worktree', 'remove', '--force', WT], stdout=subprocess.DEVNULL, stderr=subprocess.DEVNULL)
+subprocess.run(['git', '-C', '/repo', 'worktree', 'prune'])
 print("ALL OK" if ok else "SOME BAD")
